@@ -66,6 +66,9 @@ type obsT struct {
 	// the bytes of the Lean encoder (and accepted variants) through both Go decoders
 	Lean    []leanRes `json:"lean"`
 	LeanErr string    `json:"lean_err"`
+	// the value could not even be stored into / the message type could not be instantiated
+	// through protobuf reflection (first panic line)
+	BuildErr string `json:"build_err"`
 }
 
 func errKind(err error) string {
@@ -142,14 +145,34 @@ func (s *schema) execCase(in *caseIn, lean []variant, leanErr string) (*obsT, er
 		return nil, fmt.Errorf("unknown message %q", in.Msg)
 	}
 	md := s.msgs[mi]
-	orig, err := build(md, in.Val, in.AllocEmpty)
-	if err != nil {
-		return nil, err
+	var orig proto.Message
+	var berr error
+	perr := safely(func() error {
+		orig, berr = build(md, in.Val, in.AllocEmpty)
+		return nil
+	})
+	if berr != nil {
+		return nil, berr // malformed input line
 	}
 	o := &obsT{LeanErr: leanErr}
+	if perr != nil {
+		line := perr.Error()
+		if i := strings.IndexByte(line, '\n'); i >= 0 {
+			line = line[:i]
+		}
+		if len(line) > 200 {
+			line = line[:200]
+		}
+		o.BuildErr = line
+		o.PBErr, o.VTErr = "no-message", "no-message"
+		for _, d := range []*decRes{&o.PB2VT, &o.VT2PB, &o.PB2PB, &o.VT2VT} {
+			d.Err = "no-input"
+		}
+		return o, nil
+	}
 	want := normJSON(in.Val)
 	var pb, vtb []byte
-	err = safely(func() error {
+	err := safely(func() error {
 		var e error
 		pb, e = proto.MarshalOptions{Deterministic: true}.Marshal(orig)
 		return e
